@@ -11,7 +11,7 @@ def unstdResp : Xform := { writes := [], formula := (.add (.mul (.v 0) (.v 1)) (
 def normResp : Xform := { writes := [⟨.min, .min, true, false⟩, ⟨.max, .max, true, false⟩], formula := (.div (.sub (.v 0) (.v 3)) (.sub (.v 4) (.v 3))) }
 def unnormResp : Xform := { writes := [], formula := (.add (.mul (.v 0) (.sub (.v 4) (.v 3))) (.v 3)) }
 def stdTrain : Xform := { writes := [⟨.std, .std, true, true⟩, ⟨.mean, .mean, true, true⟩], formula := (.div (.sub (.v 0) (.v 2)) (.v 1)) }
-def unstdTrain : Xform := { writes := [], formula := (.add (.div (.v 0) (.v 1)) (.v 2)) }
+def unstdTrain : Xform := { writes := [], formula := (.add (.mul (.v 0) (.v 1)) (.v 2)) }
 def normTrain : Xform := { writes := [⟨.min, .min, true, true⟩, ⟨.max, .max, true, true⟩], formula := (.div (.sub (.v 0) (.v 3)) (.sub (.v 4) (.v 3))) }
 def unnormTrain : Xform := { writes := [], formula := (.add (.mul (.v 0) (.sub (.v 4) (.v 3))) (.v 3)) }
 
